@@ -659,6 +659,12 @@ func GetDynamicValueT(
 
 	if evaluatedObjectT == nil {
 		evaluatedObjectT = GetTopLevelMethodT(frame, class, instance)
+
+		// what a configured method returns is a new value: writing to it
+		// must not reach the method table
+		if evaluatedObjectT.IsBuiltinMethod() {
+			evaluatedObjectT = evaluatedObjectT.DeepCopy()
+		}
 	}
 
 	if evaluatedObjectT == nil && instance != "" && instance[0] == '@' {
